@@ -56,14 +56,15 @@ def spec_fs(inner=None):
 
 
 def gen_ctrfs(r, n):
-    """the counter's files: one worker, chunk passes by the budget rule, with and without the files of a bigger earlier run"""
+    """the counter's files: one worker, chunk passes by the budget rule; the directory is empty (0), holds planted files
+    of a bigger earlier run (1), or holds what a real earlier library run with merge(false) left there (2)"""
     cases = []
     while len(cases) < n:
         k = r.pick([1, 2, 3, 5, 11])
         recs = gen_records(r, k, nmax=8, maxlen=40)
         limit = r.pick([0, 1, 3, 5, 10, 20, 50, 1000, 10 ** 6])
         if not ctrfs_ok(sum(len(x) for x in recs), limit): continue
-        cases.append("ctrfs %d %d %d %s" % (k, limit, r.below(2), hxlist(recs)))
+        cases.append("ctrfs %d %d %d %s" % (k, limit, r.pick([0, 1, 1, 2]), hxlist(recs)))
     return cases
 
 
@@ -407,7 +408,7 @@ def gen_C12(r, tier):
     cases = []
     for _ in range(n):
         k = r.pick([1, 2, 3, 3, 4, 4, 5]) if r.below(10) else r.pick([6, 7])
-        S = r.pick([1, 2, 3, 9, 16, 1000, 2 ** 20, 1 + r.below(2 ** 20)])
+        S = r.pick([1, 2, 3, 9, 16, 1000, 2 ** 20, 1 + r.below(2 ** 20), 999999, 1000001, 2 ** 20 - 1])
         s = gen_record(r, k, 200 if k <= 5 else 80)
         cases.append("ocgr %d %d %d %s" % (k, S, r.below(2), hx(s)))
         cases.append("oligo %d %s %s" % (k, cases[-1].split(" ")[3], hx(s)))
@@ -621,7 +622,7 @@ def gen_C10(r, tier):
     for _ in range(n):
         m = r.pick([1, 2, 3, 5, 7, 10, 15, 28])
         w = 0 if r.below(3) == 0 else m + 1 + r.below(20)
-        cont = r.pick(["fa", "fq", "faw", "fagz"])
+        cont = r.pick(["fa", "fq", "faw", "fagz", "fadup"])       # fadup: every record twice under the same id
         recs = gen_records(r, m, nmax=25, maxlen=150, container=cont)
         if r.below(3) == 0:       # shared minimisers between records
             recs = recs + [x for x in recs[:5]]
@@ -645,6 +646,10 @@ def gen_C10(r, tier):
         t = r.pick([4, 8, 16])
         cases.append("s2m 8 5 %d fa %s" % (t, hxlist(recs)))
         cases.append("m2s 8 5 %d fa %s" % (t, hxlist(recs)))
+    # more than ten thousand short records, handled within a second (progress reporting every 10000 records)
+    recs = [bytes(r.choices(NUC, k=12 + r.below(4))) for _ in range(10500 if n <= 400 else 25000)]
+    cases.append("s2m 0 7 %d fa %s" % (r.pick([1, 4]), hxlist(recs)))
+    cases.append("m2s 12 7 %d fa %s" % (r.pick([2, 8]), hxlist(recs)))
     # controlled schedules through the hooks: TAKE / PUSH (m2s) or WRITE (s2m) / EXIT traces and the resulting lines
     def msched_case(mode, w, m, W, recs, prefix):
         steps = sum(2 + max(0, len(x)) for x in recs) + 4
@@ -1179,6 +1184,9 @@ def gen_C13(r, tier):
         cases.append("py:mg %d %d %s" % (w, m, hx(long_record(r, 6000, amb=3))))
     for k, norm in ((1, 0), (2, 1)) if tier == "quick" else ((1, 0), (2, 1), (4, 0)):     # small k: the table spec costs columns x windows
         cases.append("py:oligo %d %d %s" % (k, norm, hx(bytes(r.choices(NUC, k=(1 << 20) + 5000 + r.below(100))))))
+    # the binding accepts k beyond what the CLI does: columns beyond 2^16 (k = 9, 10), T-rich k-mers (high ranks)
+    for k in (8, 9) if tier == "quick" else (8, 9, 10):
+        cases.append("py:oligo %d 0 %s" % (k, hx(b"T" * (k - 3) + b"AAATTTTTTTGGGCCCAAATTTACGT" + bytes(r.choices(NUC, k=20)))))
     for k in (6, 4, 5, 3, 2, 1, 3):          # computers built one after another in one interpreter, k going down
         cases.append("py:header %d" % k); cases.append("py:oligo %d 0 %s" % (k, hx(b"ACGTTGCAAGGCTTAACC")))
     return cases
@@ -1228,7 +1236,7 @@ PROPS = {
                 rule="file level: seeded record lists (incl. highly repetitive ones) x k {1,2,3,5,10,15,21,31} x threads x memory ceilings from 6 GB down to 1e-8 GB (one chunk to dozens of chunks and partitions) x acgt x container; the sorted lines of kmers.counts and the number of surviving temp files are compared with the model (partitioned counting + merge) and the spec (multiset of canonical k-mers); then controlled-scheduler replays of count() through the hooks (W<=3 workers, R<=5 records, limits 0..1000 so that runs take 1..R+1 chunk passes; random schedule prefix + round-robin tail): the logged CHECK/TAKE/INC/ADD/EXIT trace and the content of every chunk pass must equal the Coq schedule model's; thorough enumerates all 2^10 schedule prefixes for (W,R) in {(2,2),(2,3)}; `ctrfs` cases as for C17 (the files of the counter against the file-level model); non-trivial = at least one k-mer counted",
                 assumptions=["scc entry().and_modify().or_insert() and AtomicU64 operations are atomic steps", "total windows < 2^32 (u32 counts)"]),
     "C10": dict(gen=gen_C10, needs=["harness"], sample_limit={"quick": 32, "thorough": 96}, sample_maxlen=700, extra=extra_C10,
-                rule="file level: seeded record lists (shared minimisers, reads starting with N, reads shorter than m, empty reads) x m {1,2,3,5,7,10,15,28} x w = 0 or m+1..m+20 x threads x container; s2m lines compared as a set, m2s lines as a set with lists as multisets, both against model and spec; on the implementation m2s must be the exact inversion of s2m; then controlled-scheduler replays of both loops through the hooks (W<=3 workers, R<=6 records, random schedule prefix + round-robin tail): the logged TAKE / PUSH / WRITE / EXIT trace and the resulting lines must equal the Coq schedule model's; thorough enumerates all 2^10 schedule prefixes for (W,R) in {(2,2),(2,3)}; non-trivial = at least one line",
+                rule="file level: seeded record lists (shared minimisers, reads starting with N, reads shorter than m, empty reads; files in which every record stands twice under the same id; more than 10000 short records) x m {1,2,3,5,7,10,15,28} x w = 0 or m+1..m+20 x threads x container; s2m lines compared as a set, m2s lines as a set with lists as multisets, both against model and spec; on the implementation m2s must be the exact inversion of s2m; then controlled-scheduler replays of both loops through the hooks (W<=3 workers, R<=6 records, random schedule prefix + round-robin tail): the logged TAKE / PUSH / WRITE / EXIT trace and the resulting lines must equal the Coq schedule model's; thorough enumerates all 2^10 schedule prefixes for (W,R) in {(2,2),(2,3)}; non-trivial = at least one line",
                 assumptions=["scc entry() and the Mutex-protected writer are atomic steps"]),
     "C09": dict(gen=gen_C09, needs=["harness"],
                 rule="corpus (witnesses of the repaired defects D1/D2 first), then seeded (w, m, sequence): m to 31, w to m+60, lengths 0,m,w-1,w,w+1,2w+3 and random to 400, half low-complexity repeats (period 1..6) with planted N and point mutations, a change on the last base, an N within the last window; thorough adds every string over {A,C,G,T,N} up to length 8 for m<=3, w<=m+2; non-trivial = at least one run",
